@@ -111,6 +111,15 @@ def rule_r1(ctx) -> List[R.Inst]:
                     why = f"boundaries skip lists ('{bad_flt[0]}') that the concatenation includes"
                 else:
                     why = f"boundary step is '{bad_elt[0].elt}', not previous + len(list)"
+    # the boundaries are row counts: a running sum forced into a narrow integer wraps on a large chart (40 000 rows do not fit int16)
+    narrow = [k for n in ast.walk(fn.node) if isinstance(n, ast.Call) and unparse(n.func).split(".")[-1] in ("cumsum", "add.accumulate", "accumulate", "array", "asarray")
+              for k in n.keywords if k.arg == "dtype" and unparse(k.value).split(".")[-1].strip("'\"") in
+              ("int8", "int16", "uint8", "uint16", "float16", "float32", "i1", "i2", "u1", "u2", "short", "byte", "half")]
+    if narrow and ix:
+        insts.append(R.viol("C12.R1", "_ixs:width", file, narrow[0].value.lineno,
+                            f"the list boundaries are accumulated as {unparse(narrow[0].value)}: on a chart with more rows than that type holds the "
+                            f"sums wrap, and the write-back cuts the stacked frame at the wrong rows (lists lose or exchange rows silently)",
+                            construct=f"boundaries accumulated with dtype={unparse(narrow[0].value)}"))
     cur = _cursor_form(M.fn(ST + "._update").node)
     if not ix and cur is not None:
         ln = _assigns_to_self(fn.node, cur[1])
